@@ -24,7 +24,7 @@ From WP Require Import Base.Prelude Base.Decimal Model.Cbor Model.Http Model.Var
 From WP Require Import Spec.Cbor Spec.Det Spec.Bundle.
 From WP Require Import Proofs.BaseLemmas Proofs.CborMap Proofs.Variants Proofs.BundleWriteBasics
   Proofs.BundleWriteSpec Proofs.BundleWriteForm Proofs.BundleWriteWF Proofs.BundleWriteCases
-  Proofs.BundleWriteAgree Proofs.CountingWriter.
+  Proofs.BundleWriteAgree Proofs.BundleWriteDet Proofs.CountingWriter.
 Open Scope N_scope.
 
 (* ======================= the independent parser =============================== *)
@@ -103,6 +103,25 @@ Theorem WF_index_sorted_nodup : forall v bs p, WF v bs p ->
   /\ NoDup (map ix_url (p_index p)).
 Proof. exact BundleWriteAgree.WF_index_sorted_nodup. Qed.
 Print Assumptions WF_index_sorted_nodup.
+
+(* a well-formed b2 bundle is, as a whole, ONE deterministically encoded CBOR item
+   (RFC 8949 4.2.1, Spec.Det.DetItem): the array [magic, version, section-lengths,
+   sections, length]; text strings need not be UTF-8 for this, booleans never occur *)
+Theorem WF_b2_detitem : forall bs p, WF BV2 bs p -> DetItem bs.
+Proof. exact BundleWriteDet.WF_b2_detitem. Qed.
+Print Assumptions WF_b2_detitem.
+
+Theorem write_b2_detitem : forall b bs,
+  b_ver b = BV2 -> b_write b = Ok bs -> wfb bs -> lenN bs < two64 -> sig_u64 b -> DetItem bs.
+Proof. exact BundleWriteDet.write_b2_detitem. Qed.
+Print Assumptions write_b2_detitem.
+
+(* so the package's own Deterministic() (C13) accepts it *)
+Theorem write_b2_det_accept : forall b bs,
+  b_ver b = BV2 -> b_write b = Ok bs -> wfb bs -> lenN bs < two64 -> sig_u64 b ->
+  WP.Model.Det.det_check bs = WP.Model.Det.Accept.
+Proof. exact BundleWriteDet.write_b2_det_accept. Qed.
+Print Assumptions write_b2_det_accept.
 
 (* ======================= the same, straight from the writer ===================== *)
 (* the last 8 bytes are the total size, big-endian, after the byte 0x48 *)
@@ -320,6 +339,11 @@ Proof.
   - exact I.
 Qed.
 
+Example ex_b2_det :
+  match b_write ex_b2 with Ok bs => WP.Model.Det.det_check bs | _ => WP.Model.Det.Reject end
+  = WP.Model.Det.Accept.
+Proof. vm_compute. reflexivity. Qed.
+
 (* tampering is caught by the judge: wrong trailing length, swapped index order *)
 Example ex_tamper :
   match b_write ex_b2 with
@@ -354,6 +378,21 @@ Example ex_outcomes :
   b_write {| b_ver := BV2; b_primary := Some [255]; b_manifest := None; b_sigs := None;
              b_exchanges := []; b_taint := false |} = Err.
 Proof. vm_compute. repeat split. Qed.
+
+(* MODEL NOTE (reported, Model/Bundle.v not edited): for a b1 bundle, a URL that is
+   not valid UTF-8 and carries >= 2 exchanges with bad Variants coverage, the Go code
+   returns an ERROR (entriesInPossibleKeyOrder runs before the panicking callback:
+   probe on the unchanged tree with &url.URL{Scheme:"a",Opaque:"\xff"} twice gives
+   "cannot construct index entry ...: no Variants header"), while the model's
+   index_entry tests UTF-8 first and answers Panic.  With good coverage, or with one
+   exchange, both panic.  write_panic_iff / write_err_iff describe the model. *)
+Example ex_model_panic_vs_go_err :
+  b_write {| b_ver := BV1; b_primary := Some (s2b "https://example.com/"); b_manifest := None;
+             b_sigs := None;
+             b_exchanges := [ {| bx_url := [97; 58; 255]; bx_status := 200; bx_hdr := []; bx_body := [120] |};
+                              {| bx_url := [97; 58; 255]; bx_status := 200; bx_hdr := []; bx_body := [120] |} ];
+             b_taint := false |} = Panic.
+Proof. vm_compute. reflexivity. Qed.
 
 (* a destination failing after 20 bytes, fed the bundle in 7-byte chunks *)
 Fixpoint chunks (fuel : nat) (k : N) (bs : bytes) : list bytes :=
